@@ -4,6 +4,7 @@ import re
 import subprocess
 import common as cm
 import gen
+import vcommon
 
 IMPORTS = ["Base", "Harness", "Check_C07"]
 CHECK_FN = "check_C07"
@@ -103,6 +104,7 @@ def py_tn93_defined(q, t):
 
 def extra(ctx, obl, cases, obs):
     """tn93: certified interval enclosure per sampled pair."""
+    _state["binary_runs"] = vcommon.closest_cmd_layer(ctx, cm, gen, n_inputs=2 if ctx.tier == "quick" else 10)
     rng = ctx.rng
     pairs = []
     for c in cases:
@@ -168,4 +170,5 @@ def extra(ctx, obl, cases, obs):
 
 
 def coverage_extra(ctx):
-    return {"tn93_pairs_certified": _state.get("tn93_ok", 0), "tn93_pairs_attempted": _state.get("tn93_pairs", 0)}
+    return {"tn93_pairs_certified": _state.get("tn93_ok", 0), "tn93_pairs_attempted": _state.get("tn93_pairs", 0),
+            "binary_runs": _state.get("binary_runs", 0)}
